@@ -15,7 +15,7 @@ def ranks(tier):
 
 
 class ArrayOpSpec(FuncSpec):
-    props = ("C01", "C12", "C17", "C19")
+    props = ("C01", "C12", "C17")
     explicit = (ValueError, TypeError, NotImplementedError, IndexError)
 
     def install(self, c):
@@ -89,8 +89,9 @@ class Stack(ArrayOpSpec):
     target = f"{MF}:stack"
 
     def configs(self, tier):
-        ks = (2,) if tier == "quick" else (1, 2, 3)
-        return [dict(ndim=nd, axis=ax, k=k) for nd in ranks(tier)[:2] for ax in range(nd + 1) for k in ks]
+        if tier == "quick":  # rank-2 stacks take minutes (unify_chunks forks): thorough tier only
+            return [dict(ndim=1, axis=ax, k=2) for ax in range(2)]
+        return [dict(ndim=nd, axis=ax, k=k) for nd in (1, 2) for ax in range(nd + 1) for k in (1, 2, 3) if nd == 1 or k == 2]
 
     def setup(self, c):
         nd, ax, k = c.cfg["ndim"], c.cfg["axis"], c.cfg["k"]
